@@ -14,6 +14,16 @@ CLAIMED = {
    text="TLC checks on every history of the bound that the current snapshot is the fold of the history, that earlier snapshot objects never change, and that the operational host choice equals the declarative eligible set for every prioritized-scheme list. Every such history (plus simulated longer ones) is replayed through the real client's event loops; after each event the current snapshot and all snapshots captured earlier are compared with the model's objects and resolution is exercised with scripted random draws. Random histories with richer data are logged from the real client and validated by TLC against D2.tla (invariants evaluated on every observed state). Proportionality is a 6-sigma frequency test against the model's exact distribution.",
    note="events are injected below the ZooKeeper connection (TreeCache not exercised); integer weights; the measure-zero draw r=0 excluded; proportionality is statistical",
    design="5/C19"),
+ "C05": dict(
+   technique="TLA+ spec Router.tla: declarative Rest.li decision table vs operational transcription of ServeHTTP/receive, compared by TLC on every request of the bound against every tree; the whole table exported by TLC and replayed in-process on real servers (bare, ServeMux, prefix; plain and tunnelled); observed exchanges trace-validated by TLC",
+   text="TLC checks that the operational model of the router agrees with the declarative routing/inference table on every (tree, path, verb, method header, q, ids, action) of the bound and that nothing the statement does not route is routed. Every row is then sent to real restli servers built from the model's trees with the generic Register* functions: status class, which handler ran with which keys, filter order and the routing facts filters see are compared with the admissible outcomes; registrations made after Handler()/AddToMux must stay invisible. A sample of observed exchanges is validated by TLC against the declarative layer.",
+   note="trees and request alphabet as in MC_Router.tla; key/parameter decoding failures of a routed method admit 400; ServeMux mountings skip paths with empty segments; failing and context-adding filters are not modelled yet",
+   design="5/C05"),
+ "C20": dict(
+   technique="TLA+ spec CleanDir.tla: operational recursion of CleanTargetDir vs set-based Expected, compared by TLC on every directory tree of the bound; every tree materialised on a real file system and cleaned by the real code; random wider/deeper trees with real file names trace-validated by TLC",
+   text="TLC checks Clean = Expected, idempotence and that exactly the owned files disappear, for every tree of depth <= 3 with <= 2 entries per directory (and depth 2 with 4 entries in the thorough tier), for a target given as a path, as '.' and missing. Every such tree is created on a real file system, cleaned twice by the real CleanTargetDir, and listing and file bytes are compared with the model. Random trees with a pool of real file names (names that merely contain the generated suffix, upper-case manifest names, ...) are cleaned and the observed result validated by TLC against the specification.",
+   note="already-empty directories are removed (the repository's own tests expect it); symlinks and permission errors are not modelled; regeneration is exercised under C12",
+   design="5/C20"),
 }
 
 NOT_YET = {}
